@@ -220,6 +220,21 @@ CHECKS = {
              'findings (string edge whitespace, empty string in collections). ' + TB,
         technique='Lean 4 proof (induction on depth, list lemmas) + reflection translator with kernel-decided well-formedness + '
                   'node-by-node model/implementation differential + bit-exact round-trip oracle'),
+    'C18': dict(
+        text='Lean 4 theorems, by induction over arbitrary lists of checks and steps: the need/want/precondition runner of consistency.py '
+             'as a state machine - Error-level verdict iff no executed need failed and nothing raised, totality (an exception is a '
+             'recorded failure of its own check), precondition skipping/resumption, wants never produce an Error (but do clear the '
+             'Python flag); every CPHD layout of make_file_header satisfies the five header rules and the signal-fits rule, the '
+             'writer DES header satisfies the DESSHTN/DESSHSV rule, FL equals the end of the last segment; each arithmetic mutation of '
+             'the catalogue falsifies its rule. Tied to sarpy by runner correspondence on generated toy checkers, file-rule '
+             'correspondence on independently parsed bytes, and an acceptance / 38-mutation oracle on the real checkers.',
+        design='DESIGN.md 6/C18',
+        note='proof, partial: runner and file-level rules proved; the several hundred content rules of validation_checks.py / '
+             'cphd_consistency.py are differential only (valid products accepted, seeded content mutations flagged); consistent CPHD '
+             'products from the minimal 1.1.0 template; SICD/SIDD checkers modelled only in their DES rule. Four open known findings '
+             '(two construction-time crashes of the CPHD checker, two rejections of create_subset_structure metadata). ' + TB,
+        technique='Lean 4 proof (induction, omega) + runner correspondence on generated toy checkers + file-rule correspondence on '
+                  'independently parsed bytes + acceptance / mutation-catalogue oracle on the real checkers'),
 }
 
 
